@@ -6,8 +6,14 @@ C13 — the property's hypothesis as a decidable predicate on the two scripts.
 it follows who waits for whom and says `true` iff every send meets a ready receiver, the client asks
 for the header only when the handler has produced it or cannot be waiting for the client, asks for
 the trailer only after its RecvMsg returned the terminal status (`tm`), cancels only while the handler is blocked waiting (recv
-with nothing in flight, or `wait`), and both scripts run to their end.  `hdr` = header metadata is
-available to the client (SendHeader, first message, handler returned, or call aborted).
+with nothing in flight, or `wait`), and both scripts run to their end.  `hdr` = the handler has produced
+the header (SendHeader, first message, handler returned): `Header()` does not block.  After the client's
+own CANCEL `hdr` keeps the value it had: `Header()` is then asked only when NO header had been produced
+(metadata staged with SetHeader at most): both transports must report none — a real client has received
+nothing and has reset the stream; had a HEADERS frame been written, grpc-go's answer would depend on
+whether the frame was processed before the cancel.  After a DEADLINE `Header()` is not asked (`hdr` is
+set): the server's own timer fires as well, and whether its final HEADERS + status reach the client first
+is a race inside gRPC.
 -/
 namespace ScVerif.C13
 
@@ -25,12 +31,12 @@ def sync : Bool → Bool → Bool → Srv → List COp → Bool
   | tm, hdr, false, .running (.recv :: ss), .send _ :: cs => sync tm hdr false (.running ss) cs
   | tm, hdr, false, .running (.recv :: ss), .closeSend :: cs => sync tm hdr true (.running (.recv :: ss)) cs
   | tm, hdr, false, .running (.recv :: ss), .header :: cs => hdr && sync tm hdr false (.running (.recv :: ss)) cs
-  | tm, _, false, .running (.recv :: _), .abort _ :: cs => sync tm true false .aborted cs
+  | tm, hdr, false, .running (.recv :: _), .abort a :: cs => sync tm (hdr || a != .cancel) false .aborted cs
   | _, _, false, .running (.recv :: _), [] => false
   | _, _, false, .running (.recv :: _), _ :: _ => false
   | tm, hdr, cc, .running (.wait :: ss), .header :: cs => hdr && sync tm hdr cc (.running (.wait :: ss)) cs
   | tm, hdr, false, .running (.wait :: ss), .closeSend :: cs => sync tm hdr true (.running (.wait :: ss)) cs
-  | tm, _, cc, .running (.wait :: _), .abort _ :: cs => sync tm true cc .aborted cs
+  | tm, hdr, cc, .running (.wait :: _), .abort a :: cs => sync tm (hdr || a != .cancel) cc .aborted cs
   | _, _, _, .running (.wait :: _), [] => false
   | _, _, _, .running (.wait :: _), _ :: _ => false
   | _, _, _, .done, [] => true
@@ -41,6 +47,7 @@ def sync : Bool → Bool → Bool → Srv → List COp → Bool
   | _, _, _, .done, _ :: _ => false
   | _, _, _, .aborted, [] => true
   | tm, hdr, cc, .aborted, .recv :: cs => sync tm hdr cc .aborted cs
+  | tm, hdr, cc, .aborted, .header :: cs => !hdr && sync tm hdr cc .aborted cs
   | _, _, _, .aborted, _ :: _ => false
 termination_by _ _ _ srv cs => srv.size + cs.length
 decreasing_by all_goals (simp only [Srv.size, List.length_cons]; omega)
@@ -91,7 +98,7 @@ def startsWithRequest : List COp → Bool
 /-- The scripts fit the method's shape (what the generated code of test_grpc.pb.go lets each side do). -/
 def conforms (shape : Shape) (ss : List SOp) (fin : Fin) (cs : List COp) : Bool :=
   match shape with
-  | .unary => singleRequest ss && singleResponse ss fin && cs == invokeScript (firstSend cs)
+  | .unary => singleRequest ss && singleResponse ss fin && cs == invokeOps cs
   | .unaryS => singleRequest ss && singleResponse ss fin && startsWithRequest cs
   | .sstream => singleRequest ss && startsWithRequest cs
   | .cstream => singleResponseC ss fin
